@@ -355,10 +355,10 @@ impl Monitor for C11 {
         let np = c11_pins().len() as u64;
         let mut v = split_chunks("pin", 0, np, np, 1);
         let n = match tier {
-            Tier::Quick => 1_500,
-            Tier::Thorough => 15_000,
+            Tier::Quick => 4_000,
+            Tier::Thorough => 30_000,
         };
-        for k in ["rand", "hw", "stress"] {
+        for k in ["rand", "hw", "stress", "wild"] {
             v.extend(split_chunks(k, seed_offset(seed, &format!("C11{}", k), pool_len(k)), n, pool_len(k), 50));
         }
         v.extend(split_chunks("seed", seed_offset(seed, "C11s", 30_000), n * 2, 30_000, 50));
